@@ -22,7 +22,7 @@ ASSUMPTIONS = [
 ]
 OUTSIDE = ["histories longer than the bound", "observation values that are NaN/inf other than the dedicated NaN case"]
 RULE = "initial status, operation codes and plate-id lists are solver-enumerated; stored values stay symbolic."
-BUDGET_S = {"quick": 240, "thorough": 1500}
+BUDGET_S = {"quick": 600, "thorough": 3000}
 TASK_QUOTA = 80
 
 ROWS = {
